@@ -187,7 +187,7 @@ Proof.
     destruct Small as [S|[->| ->]]; [|vm_compute in H; discriminate|vm_compute in H; discriminate].
     rewrite (Z.mod_small c 256) in H by lia.
     rewrite !orb_true_iff, !andb_true_iff, !Z.leb_le, Z.eqb_eq in H. lia.
-  - apply negb_true_iff. apply orb_false_iff; split; [apply orb_false_iff; split|]; apply Z.eqb_neq; intros ->; vm_compute in H; discriminate.
+  - apply negb_true_iff. repeat (apply orb_false_iff; split); apply Z.eqb_neq; intros ->; vm_compute in H; discriminate.
 Qed.
 Lemma alpha_alnum c : alpha_or_underscore c = true -> alphanum_or_underscore c = true.
 Proof. unfold alpha_or_underscore, alphanum_or_underscore. rewrite !orb_true_iff. tauto. Qed.
